@@ -535,6 +535,16 @@ func ctxDeriveRule(w *World, r *Report, e *Engine, m *evalModel, rule string, on
 							ctxArg, what = c.Args[0], sc.Name()
 						}
 					}
+					// any other function of the module that takes a context (the helpers of the context-taking
+					// builtins: what they evaluate, they evaluate under the context they are given)
+					if ctxArg == nil && inModule(sc) && len(sc.Blocks) > 0 {
+						for i, p := range sc.Params {
+							if isContext(p.Type()) && i < len(c.Args) {
+								ctxArg, what = c.Args[i], sc.Name()
+								break
+							}
+						}
+					}
 				} else if !c.IsInvoke() {
 					if sig, ok := c.Value.Type().Underlying().(*types.Signature); ok && (sameParamsResults(sig, extSig) || isEvalSig(sig)) && len(c.Args) > 0 && isContext(c.Args[0].Type()) {
 						ctxArg, what = c.Args[0], "function value "+describeVal(e, c.Value, 0)
